@@ -160,7 +160,14 @@ func junk(s shape, in oin, j int) oin {
 }
 
 var ocraKeys = func() [][]byte {
-	return [][]byte{{}, []byte("12345678901234567890"), []byte("12345678901234567890123456789012"), []byte("1234567890123456789012345678901234567890123456789012345678901234"), patt(100, 7)}
+	keys := [][]byte{{}, []byte("12345678901234567890"), []byte("12345678901234567890123456789012"), []byte("1234567890123456789012345678901234567890123456789012345678901234"), patt(100, 7)}
+	// keys whose canonical base32 text also reads as hexadecimal / decimal (only A-F and 2-7, even length)
+	for _, text := range []string{"AAAAAAAAAAAAAAAA", "ABCDEFAB", "22334455", "7777777777777777", "BADCAFE2", "FEEDFACEDEADBEEF", "2345672345672345"} {
+		if v, k := ref.B32Classify(text); v == ref.MustAccept && ref.B32Encode(k) == text {
+			keys = append(keys, k)
+		}
+	}
+	return keys
 }()
 
 // framed re-homes the fields of an input into ONE backing array, each field directly followed
